@@ -319,6 +319,15 @@ class Flow:
         if isinstance(node, ast.Attribute):
             out = []
             for s, base in self.ev(st, node.value):
+                if isinstance(base, PathRef) and base.path == "self" and node.attr not in self.self_attrs and self.self_cls:
+                    r = self.repo.resolve_method(self.self_cls, node.attr)
+                    if r is not None and any(ast.unparse(d).split(".")[-1] in ("property", "cached_property") for d in r[2].decorator_list):
+                        # a property of the node itself: its getter, evaluated over the node's own (concrete) attributes
+                        res = self.inline(s, r[2], PathRef("self"), [], {}, f"self.{node.attr}", self.repo.mod(r[0]).constants())
+                        if any(isinstance(v, Exc) for _, v in res):
+                            raise self.unsupported(f"property self.{node.attr} may raise")
+                        out.extend(res)
+                        continue
                 out.append((s, self.getattr(s, base, node.attr, node)))
             return out
         if isinstance(node, ast.NamedExpr):
@@ -725,6 +734,8 @@ class Flow:
                     return [(s, Opq(ast.unparse(node)[:40]))]
 
                 return self.with_args(st, node, pick)
+            if name == "bool" and len(node.args) == 1 and not node.keywords:
+                return [(s, b) for s, b in self.truth(st, node.args[0])]  # the truth of its argument, as a branch sees it
             if name in ("str", "repr", "int", "bool", "max", "min", "range", "zip", "sorted", "any", "all", "print", "tuple", "type"):
                 return self.with_args(st, node, lambda s, a, kw: [(s, Opq(ast.unparse(node)[:40]))])
             if name in ("ValueError", "IndexError", "RuntimeError", "KeyError", "TypeError", "AssertionError", "Exception"):
